@@ -26,6 +26,13 @@ Contents have no length bound: besides the short ones, size classes around power
 128 KiB +-1, 200 KB; ASCII and 2-byte characters) are written for :output (file, stdout, direct) and :loopoutput
 references (`big_scenario`; the case stores a compact description `{"big": n, ...}` that `ctext` expands).
 
+Loop instances: besides 1-3, loops unrolled to 10-13 iterations (thorough: 101) are built with the real
+``instantiate_dowhile_next_iteration``; the model receives the instances of a placeholder as (id, location/contents)
+pairs in the order of their id texts and orders them itself (``ArgSubst.orderInstances``, the model of
+``looped_reference_to_paths``' numeric sort).  A second entry point, ``Job.resolveArguments`` of the consumer's
+component instance, is compared as well.  Scenarios may carry an ambient logging configuration (``log``) and a list
+of other scenarios after which they are run again (``again_after``).
+
 Values are not opaque: files are written byte-exact into the working directories (also of the loop instances of a
 real DoWhile, for ``:loopref``/``:loopoutput`` and for ``:ref``/``:output`` through a placeholder), the real
 ``DataReference.resolve`` reads them, the model gets the *raw* contents and computes the value itself
@@ -157,6 +164,12 @@ def locations_of(ref, case):
     return ["$I/stages/stage%d/%s" % (ref['stage'], c) for c in comps]
 
 
+def instance_ids(ref, case):
+    """ids `stage<s>.<iteration>#<name>` of the loop instances an aggregating reference denotes, by iteration"""
+    name = ref['path'].partition('/')[0]
+    return ["stage%d.%d#%s" % (ref['stage'], i, name) for i in range(case['loop']['iters'])]
+
+
 def value_of(ref, case):
     """the reference's own value with the instance directory written $I (the oracle's statement)"""
     paths, keys = places_of(ref, case)
@@ -176,12 +189,24 @@ def source_of(ref, case):
     if ref['kind'] == 'output':
         contents = [fget(case, k) for k in keys]
         if ref['method'] == 'loopoutput':
+            if is_looped(ref, case):
+                # the loop instances as (id, contents) in the order of their id TEXTS (0, 1, 10, 11, 2, …) — the
+                # instances of a placeholder are a set; putting them into iteration order is the model's job
+                # (ArgSubst.orderInstances)
+                ids = instance_ids(ref, case)
+                return {"t": "instfiles", "insts": sorted(({"id": i, "c": c} for i, c in zip(ids, contents)),
+                                                          key=lambda x: x["id"])}
             return {"t": "files", "cs": contents}
         return {"t": "file", "c": contents[0]}
     if ref['stage'] is None:
         return {"t": "path", "p": paths[0]}
     # references to components: the model joins the file part to the location(s) itself (refPath / loopRefPath)
     if ref['method'] == 'loopref':
+        if is_looped(ref, case):
+            ids = instance_ids(ref, case)
+            return {"t": "insts", "file": ref['file'],
+                    "insts": sorted(({"id": i, "loc": l} for i, l in zip(ids, locations_of(ref, case))),
+                                    key=lambda x: x["id"])}
         return {"t": "locs", "locs": locations_of(ref, case), "file": ref['file']}
     return {"t": "loc", "loc": locations_of(ref, case)[0], "file": ref['file']}
 
@@ -281,6 +306,31 @@ def flowir_for(case, order):
     return yaml.safe_dump({'components': comps}), canonical, dowhile
 
 
+def apply_log(cfg):
+    """ambient setting: the logging configuration of the process.  None: logging disabled (as in all other cases);
+    `{"root": level | None, "loggers": {name: level}}`: these levels, records go to a NullHandler.  Returns the undo."""
+    if cfg is None:
+        return lambda: None
+    root = logging.getLogger()
+    saved_handlers, saved_level, saved_disable = root.handlers[:], root.level, logging.root.manager.disable
+    names = list(cfg.get("loggers", {}))
+    saved = {n: logging.getLogger(n).level for n in names}
+    root.handlers = [logging.NullHandler()]
+    logging.disable(logging.NOTSET)
+    if cfg.get("root") is not None:
+        root.setLevel(cfg["root"])
+    for n in names:
+        logging.getLogger(n).setLevel(cfg["loggers"][n])
+
+    def undo():
+        for n in names:
+            logging.getLogger(n).setLevel(saved[n])
+        root.setLevel(saved_level)
+        root.handlers = saved_handlers
+        logging.disable(saved_disable if isinstance(saved_disable, int) else logging.CRITICAL)
+    return undo
+
+
 class Impl:
     """one real experiment per (case, declaration order); resolves a batch of argument strings"""
 
@@ -309,6 +359,7 @@ class Impl:
                 fh.write(v.encode('utf-8'))
         cwd = os.getcwd()
         exp = None
+        restore_log = apply_log(case.get('log'))
         try:
             try:
                 pkg = experiment.model.storage.ExperimentPackage.packageFromLocation(pkg_path)
@@ -337,10 +388,16 @@ class Impl:
                 os.makedirs(os.path.dirname(target), exist_ok=True)
                 with open(target, 'wb') as fh:
                     fh.write(ctext(content).encode('utf-8'))
-            spec = exp.experimentGraph.graph.nodes['stage%d.%s' % (case['stage'], case['consumer'])][
-                'componentSpecification']
+            node = exp.experimentGraph.graph.nodes['stage%d.%s' % (case['stage'], case['consumer'])]
+            spec = node['componentSpecification']
+            job = node.get('componentInstance')
             seen = [dict(abs=r.absoluteReference, rel=r.relativeReference, stage=r.stageIndex, method=r.method,
                          file=r.fileRef) for r in spec.dataReferences]
+            represents = {}
+            if lp:
+                for nm in lp['names']:
+                    ph = exp.experimentGraph._placeholders.get('stage%d.%s' % (lp['stage'], nm), {})
+                    represents[nm] = sorted(ph.get('represents', []))
             outs = []
             for args in [canonical] + list(arg_list):
                 spec.setOption('#command.arguments', args)
@@ -354,9 +411,19 @@ class Impl:
                 for u in unused:
                     m = re.match(r"Reference (.*?) declared by component", str(u))
                     names.append(m.group(1) if m else "?")
-                outs.append({"out": out.replace(loc, "$I"), "unused": names, "unresolved": bool(unresolved)})
-            return {"seen": seen, "canonical": outs[0], "outs": outs[1:], "canonical_args": canonical}
+                o = {"out": out.replace(loc, "$I"), "unused": names, "unresolved": bool(unresolved)}
+                # another entry point to the same code: the component instance (`Job.resolveArguments`, what the
+                # runtime builds the command line from; it does not tolerate errors — then it has no answer)
+                if job is not None:
+                    try:
+                        o["job"] = job.resolveArguments().replace(loc, "$I")
+                    except Exception as exc:  # noqa
+                        o["job_error"] = type(exc).__name__
+                outs.append(o)
+            return {"seen": seen, "canonical": outs[0], "outs": outs[1:], "canonical_args": canonical,
+                    "represents": represents}
         finally:
+            restore_log()
             os.chdir(cwd)
             if exp is not None:
                 shutil.rmtree(exp.instanceDirectory.location, ignore_errors=True)
@@ -480,7 +547,10 @@ def gen_scenario(rng):
         ls = rng.randint(0, k)
         free = [n for n in fam if [ls, n] not in producers]
         if free:
-            loop = dict(stage=ls, names=rng.sample(free, rng.randint(1, min(2, len(free)))), iters=rng.randint(1, 3))
+            # number of loop instances: mostly 1-3; sometimes two-digit iteration numbers (10 … 12 exist), where the
+            # order of the id texts and the iteration order differ
+            iters = rng.randint(1, 3) if rng.random() < 0.88 else rng.choice([10, 11, 12, 13])
+            loop = dict(stage=ls, names=rng.sample(free, rng.randint(1, min(2, len(free)))), iters=iters)
             for name in loop['names']:
                 for _ in range(2):
                     f, file_ok = pick_file(rng)
@@ -631,6 +701,46 @@ def big_scenario(rng, i):
         scen['loop'] = loop
     return scen
 
+def many_iterations_scenario(rng, i, iters=None):
+    """a DoWhile unrolled to 11-13 (or `iters`) iterations — the iteration numbers 10, 11, … exist — and a consumer
+    that aggregates a looped producer with :loopref and :loopoutput (distinct contents per instance: the position of
+    every instance in the value is visible), next to :ref/:output through the placeholder (latest instance)"""
+    fam = rng.choice(FAMILIES)
+    k = rng.randint(0, 1)
+    ls = rng.randint(0, k)
+    names = rng.sample(fam, 2)
+    iters = iters or [11, 12, 13, 11][i % 4]
+    loop = dict(stage=ls, names=[names[0]], iters=iters)
+    producers = [[st, names[1]] for st in range(k + 1)]
+    f = rng.choice([None, "out.txt", "t/out.txt"])
+    fpart = "" if f is None else "/" + f
+    pre = rng.choice(["stage%d." % ls, "" if ls == k else "stage%d." % ls])
+    refs = [pre + names[0] + fpart + ":loopoutput", "stage%d.%s%s:loopref" % (ls, names[0], rng.choice(["", "/x.dat", "/"])),
+            rng.choice(["stage%d.%s:ref" % (ls, names[0]), "stage%d.%s:output" % (ls, names[0]),
+                        "stage%d.%s:ref" % (k, names[1])])]
+    files = {}
+    for it in range(iters):
+        files["stage%d.%d#%s/%s" % (ls, it, names[0], f or "out.stdout")] = \
+            rng.choice(["", " ", "\t"]) + "value-%d" % it + rng.choice(["\n", "\n", "", " \n\n"])
+        if refs[2].endswith(":output"):
+            files.setdefault("stage%d.%d#%s/out.stdout" % (ls, it, names[0]), "stdout-%d\n" % it)
+    rng.shuffle(refs)
+    consumer = "C"
+    while [k, consumer] in producers or (ls == k and consumer in loop['names']):
+        consumer += "c"
+    return dict(stage=k, consumer=consumer, producers=producers, data=[], files=files, refs=refs, loop=loop)
+
+
+def gen_log(rng):
+    """ambient logging configuration (None: disabled, as usual)"""
+    r = rng.random()
+    if r < 0.6:
+        return None
+    if r < 0.85:
+        return {"root": rng.choice([0, 1, 10, 13, 14, 15, 20]), "loggers": {}}
+    return {"root": rng.choice([None, 20]), "loggers": {rng.choice(["graph", "flowir", "graph.workflowgraph"]): rng.choice([10, 13, 14, 15])}}
+
+
 CORPUS = [
     # DESIGN section 8 #4: one producer's name is a suffix of another's, relative spellings
     dict(stage=0, consumer="C", producers=[[0, "A"], [0, "BA"]], data=[], files={}, refs=["A:ref", "BA:ref"],
@@ -738,7 +848,15 @@ def check_scenario(ctx, impl, scen, seg_lists, perm_limit, label):
                     c = fget(base, key)
                     vtags.update(["content:missing"] if c is None else content_tags(c))
         if base.get('loop'):
-            vtags.add("loop:iters=%d" % base['loop']['iters'])
+            n_it = base['loop']['iters']
+            vtags.add("loop:iters=%s" % (n_it if n_it <= 3 else "4-10" if n_it <= 10 else "11-13" if n_it <= 13 else ">13"))
+            # the instances the harness (and through it the model) assumes are the ones the placeholder represents
+            ctx.compare("placeholder['represents'] == instances 0 … iters-1 of the looped component",
+                        dict(base, refs=list(order), segs=[]),
+                        {nm: sorted("stage%d.%d#%s" % (base['loop']['stage'], i, nm) for i in range(n_it))
+                         for nm in base['loop']['names']},
+                        res.get("represents"))
+        vtags.add("logging:" + ("disabled" if base.get('log') is None else "configured"))
         ctx.compare("spec.dataReferences spellings == harness reading of the declaration",
                     dict(base, refs=list(order), segs=[]),
                     [dict(abs=r['abs'], rel=r['rel'], stage=r['stage'], method=r['method'], file=r['file'])
@@ -776,6 +894,9 @@ def check_scenario(ctx, impl, scen, seg_lists, perm_limit, label):
                 if out["out"] != exp_out:
                     ctx.fail("reference-not-replaced-by-its-own-value-or-other-text-changed", case,
                              big_detail(exp_out, out["out"], args))
+                elif "job" in out and out["job"] != exp_out:
+                    ctx.fail("reference-not-replaced-by-its-own-value-or-other-text-changed", case,
+                             dict(big_detail(exp_out, out["job"], args), entry_point="Job.resolveArguments"))
                 elif sorted(out["unused"]) != sorted(exp_unused):
                     ctx.fail("wrong-set-of-unused-references", case,
                              dict(expected=exp_unused, got=out["unused"], args=args))
@@ -793,6 +914,10 @@ def check_scenario(ctx, impl, scen, seg_lists, perm_limit, label):
                     ctx.fail("model-parse-does-not-reproduce-arguments", case, m)
                 if m["new"] != m["old"]:
                     ctx.tag("model:old-algorithm-differs")
+                if "job" in out:
+                    ctx.tag("entry:Job.resolveArguments")
+                    ctx.compare("Job.resolveArguments == ArgSubst.resolve (out)", case,
+                                dict(out=m["new"]["out"]), dict(out=out["job"]))
                 if "error" not in out:
                     ctx.compare("resolveArguments (out, unused, unresolved) == ArgSubst.resolve", case,
                                 dict(out=m["new"]["out"], unused=sorted(m["new"]["unused"]),
@@ -804,6 +929,16 @@ def check_scenario(ctx, impl, scen, seg_lists, perm_limit, label):
                                 dict(out=m["new"]["out"], unused=sorted(m["new"]["unused"])),
                                 dict(out=exp_out, unused=sorted(exp_unused)))
             qi += 1
+    if base.get('again_after') and per_order and "load_error" not in per_order[0]:
+        # process-level state: other scenarios (the same names in other roles, other numbers of loop instances), then
+        # the first declaration order of this one again: the same answers
+        for other in base['again_after']:
+            impl.run({k: v for k, v in other.items() if k != 'segs'}, other['refs'], ["hi"])
+        again = impl.run(base, orders[0], arg_list)
+        ctx.tag("run-again-after-other-scenarios")
+        if again != per_order[0]:
+            ctx.fail("result-depends-on-earlier-cases", dict(base, refs=list(orders[0]), segs=seg_lists[0]),
+                     dict(first=str(per_order[0])[:1500], again=str(again)[:1500]))
     return complete
 
 
@@ -923,7 +1058,10 @@ def check_methods(ctx):
 
 def run(ctx):
     ctx.rule = ("case = (producer set over stages 0..2 drawn from 6 families of mutually overlapping names, optionally a real "
-                "DoWhile whose 1-2 looped components have 1-3 loop instances, consumer stage, 2-4 declared references in one "
+                "DoWhile whose 1-2 looped components have 1-3 loop instances (12% of the loops and 3 dedicated scenarios "
+                "per quick run, 12 per thorough run: 10-13 instances, i.e. two-digit iteration numbers, distinct contents "
+                "per instance; thorough: one with 101), optionally a sampled logging configuration of the process (root / "
+                "graph / flowir loggers at 0,1,10,13,14,15,20 instead of disabled logging), consumer stage, 2-4 declared references in one "
                 "declaration order mixing :ref/:output/:loopref/:loopoutput/:copy/:link (to working directories, files, "
                 "stdout, placeholders), absolute and relative spellings, data/ direct references, degenerate file parts "
                 "(present but empty `P/:ref`, `.`, trailing / doubled separator, `./f`; direct paths with trailing / doubled "
@@ -948,6 +1086,13 @@ def run(ctx):
         "Witness.C10.doubled_separator_spelling_is_not_the_text) and no reference is an absolute path; `P/:output` / "
         "`P/:loopoutput` (a directory where a file is needed) are not generated; the value of a direct reference is the "
         "normalised path below the instance directory",
+        "the loop instances of a looped producer are given to the model as (instance id, location / contents) pairs in the "
+        "order of their id TEXTS; the model puts them into iteration order (ArgSubst.orderInstances); that the ids are the "
+        "ones the real placeholder represents is compared on every case",
+        "Job.resolveArguments (the component instance's entry point) is judged like resolveArguments whenever it returns "
+        "(it does not tolerate missing files)",
+        "some scenarios are run a second time after two other scenarios that use the same producer / consumer names in other "
+        "roles: the answers must be identical (process-level state)",
         "argument strings other than the canonical one are installed with setOption('#command.arguments') on the loaded "
         "experiment (the loader refuses undeclared reference-like text, which the property wants left untouched)",
     ]
@@ -976,14 +1121,34 @@ def run(ctx):
             complete_all &= check_scenario(ctx, impl, c, [c['segs']], 24, "corpus")
         nscen = 28 if quick else 260
         nargs = 6 if quick else 10
-        budget = 75 if quick else 700
+        budget = 62 if quick else 640
+        # two-digit (thorough: also three-digit) iteration numbers first: every order of few references, few strings
+        nmany = 3 if quick else 12
+        for i in range(nmany):
+            scen = many_iterations_scenario(rng, i)
+            if i % 2:
+                scen['log'] = {"root": rng.choice([10, 13, 14]), "loggers": {}}
+            seg_lists = [gen_segs(rng, scen, st) for st in ("each-once", rng.choice(["repeat", "abs", "noisy"]))]
+            complete_all &= check_scenario(ctx, impl, scen, seg_lists, 3 if quick else 6, "generated-many-iterations")
+        if not quick:
+            scen = many_iterations_scenario(rng, 0, iters=101)
+            complete_all &= check_scenario(ctx, impl, scen, [gen_segs(rng, scen, "each-once")], 1, "generated-many-iterations")
+        recent = []
         for i in range(nscen):
             if time.time() - t0 > budget:
                 ctx.notes.append("time budget reached after %d scenarios" % i)
                 break
             scen = gen_scenario(rng)
+            scen_log = gen_log(rng)
+            if scen_log is not None:
+                scen['log'] = scen_log
             seg_lists = [gen_segs(rng, scen, rng.choice(STYLES)) for _ in range(nargs)]
-            complete_all &= check_scenario(ctx, impl, scen, seg_lists, 24, "generated")
+            if len(recent) >= 2 and i % (6 if quick else 10) == 5:
+                # the same producer / consumer names in other roles in between, then this scenario again
+                scen['again_after'] = [dict(r, segs=[]) for r in recent[-2:]]
+            complete_all &= check_scenario(ctx, impl, scen, seg_lists,
+                                           24 if not scen.get('loop') or scen['loop']['iters'] <= 3 else 4, "generated")
+            recent.append({k_: v for k_, v in scen.items() if k_ != 'again_after'})
         # long contents (few cases: every declaration order is its own experiment and the strings are long)
         nbig = 8 if quick else 36
         for i in range(nbig):
